@@ -5,6 +5,7 @@ package main
 
 import (
 	"fmt"
+	"go/types"
 	"regexp"
 	"sort"
 	"strings"
@@ -886,4 +887,125 @@ func ruleOPENEND(c *Ctx, r *Report) {
 		}
 	}
 	r.floor(rule, "marker answers", n, 1)
+}
+
+// PARAM-VERBATIM (C08/C04): the parameter list carries the payloads themselves. The only value that may be
+// rewritten on its way into the list is the pattern of a Like node (* → %, ? → _).
+func rulePARAMVERBATIM(c *Ctx, r *Report) {
+	const rule = "PARAM-VERBATIM"
+	r.doc(rule, "in package driver every store of a computed string (the result of a call or a concatenation, not the payload as it was read from the node) into an element of a parameter list happens only where the node's operator was compared equal to Like (calling contexts of private helpers included): a quoted text is delivered byte for byte in the parameter list for every other operator")
+	dr := c.driverRoles()
+	if dr.Err != "" {
+		r.bad(rule, "anchor", "-", dr.Err)
+		return
+	}
+	n, rewrites := 0, 0
+	for _, f := range c.Funcs {
+		if fnPkgPath(f) != pkgDriver || !inLib(f) {
+			continue
+		}
+		for _, b := range f.Blocks {
+			for _, in := range b.Instrs {
+				st, ok := in.(*ssa.Store)
+				if !ok {
+					continue
+				}
+				ia, ok := st.Addr.(*ssa.IndexAddr)
+				if !ok {
+					continue
+				}
+				// element type: interface (a []any or the backing array of one)
+				et := ia.Type().Underlying().(*types.Pointer).Elem()
+				if _, isIface := et.Underlying().(*types.Interface); !isIface {
+					continue
+				}
+				mi, ok := st.Val.(*ssa.MakeInterface)
+				if !ok || !isStringType(mi.X.Type()) {
+					continue
+				}
+				n++
+				x := c.resolve(mi.X, nil)
+				computed := false
+				switch y := x.(type) {
+				case *ssa.Call:
+					computed = true
+				case *ssa.BinOp:
+					computed = true
+				case *ssa.Phi:
+					for _, e := range y.Edges {
+						switch c.resolve(e, nil).(type) {
+						case *ssa.Call, *ssa.BinOp:
+							computed = true
+						}
+					}
+				}
+				if !computed {
+					continue
+				}
+				// only stores that reach a parameter list matter: a message for fmt is not one
+				if onlyForeignUseOfSlot(ia) {
+					continue
+				}
+				rewrites++
+				key := fmt.Sprintf("%s|param←%s", fnName(f), c.key(mi.X, nil))
+				underLike, reached := true, false
+				ok2 := c.withContexts(f, dr.RenderParam, 0, func(callerAtoms []Atom) {
+					reached = true
+					raw := append(append([]Atom(nil), callerAtoms...), c.domAtoms(st.Block())...)
+					like := false
+					for _, a := range c.expand(raw, nil) {
+						if a.Kind == "cmp" && a.Op == "==" && ((a.Val == "expr.Like" && strings.HasSuffix(a.Subj, ".Op")) || (a.Subj == "expr.Like" && strings.HasSuffix(a.Val, ".Op"))) {
+							like = true
+						}
+					}
+					if !like {
+						underLike = false
+					}
+				})
+				switch {
+				case !ok2 || !reached:
+					r.bad(rule, key, c.instrPos(st), fmt.Sprintf("%s stores a computed string into a parameter list, and it is not reached from RenderParam through private helpers only, so the operator of the node cannot be established: a value other than a Like pattern may arrive rewritten", fnName(f)))
+				case !underLike:
+					r.bad(rule, key, c.instrPos(st), fmt.Sprintf("%s stores the rewritten string %s into the parameter list on a path on which the node's operator was not compared equal to Like: a quoted text containing * or ? (any operator with one right-hand parameter) arrives altered in the parameter list although the inline SQL delivers it verbatim", fnName(f), c.key(mi.X, nil)))
+				default:
+					r.ok(rule, key, c.instrPos(st), "under Op == Like in every calling context")
+				}
+			}
+		}
+	}
+	r.ok(rule, "stores-examined", "-", fmt.Sprintf("%d stores of strings into interface slots of package driver, %d of them computed strings", n, rewrites))
+	r.floor(rule, "rewritten parameters", rewrites, 1)
+}
+
+// onlyForeignUseOfSlot: the array the slot belongs to is only ever sliced and handed to functions outside the
+// module (the variadic arguments of fmt.Errorf and the like).
+func onlyForeignUseOfSlot(ia *ssa.IndexAddr) bool {
+	a, ok := ia.X.(*ssa.Alloc)
+	if !ok || a.Referrers() == nil {
+		return false
+	}
+	for _, r2 := range *a.Referrers() {
+		switch w := r2.(type) {
+		case *ssa.IndexAddr, *ssa.DebugRef:
+		case *ssa.Slice:
+			if w.Referrers() == nil {
+				return false
+			}
+			for _, r3 := range *w.Referrers() {
+				if _, isDbg := r3.(*ssa.DebugRef); isDbg {
+					continue
+				}
+				call, ok := r3.(*ssa.Call)
+				if !ok {
+					return false
+				}
+				if g := call.Call.StaticCallee(); g == nil || inModule(g) {
+					return false
+				}
+			}
+		default:
+			return false
+		}
+	}
+	return true
 }
